@@ -46,6 +46,8 @@ def gen_netlist(rng, n_leaf=(1, 3), n_mid=(1, 4), max_children=4, max_ports=4, m
                     p.is_downto = False
             if data and rng.random() < 0.2:
                 p["pk"] = rng.choice([1, "v", True])
+            if data and rng.random() < 0.15:
+                p["nested"] = {"l": [rng.randint(0, 9)]}
 
     for _ in range(rng.randint(*n_leaf)):
         d = rng.choice(libs).create_definition(name=nm("leaf_"))
@@ -64,6 +66,8 @@ def gen_netlist(rng, n_leaf=(1, 3), n_mid=(1, 4), max_children=4, max_ports=4, m
             k = d.create_child(name=(fresh(rng, iused, "I") if named and rng.random() >= unnamed_frac else None), reference=ref)
             if data and rng.random() < 0.3:
                 k["ik"] = rng.choice([7, "s", False])
+            if data and rng.random() < 0.25:
+                k["nested"] = [rng.randint(0, 9), {"a": [rng.randint(0, 9)]}]
             kids.append(k)
         free = [q for p in d.ports for q in p.pins]
         for k in kids:
